@@ -416,14 +416,24 @@ def run(ctx):
         ("excess", [0, 0, F(1, 2), F(1, 2), F(1, 2), 1, 1], None), ("first>last", [0, 0, 0, 1, 1], None), ("last>first", [0, 0, 1, 1, 1], None),
         ("nan", [0, 0, "nan", 1, 1], None), ("string", ["asd", 0, 1], None), ("none", [0, "None", 1], None),
         ("wrongdeg", [0, 0, 1, 1], 0), ("wrongdeg2", [0, 0, 0, 1, 1, 1], 1), ("okdeg", [0, 0, F(1, 3), 1, 1], 1),
+        ("excess-behind-near-duplicate", [-2] * 4 + [F(3999999999, 10**10)] + [F(2, 5)] * 5 + [1] * 4, None),
+        ("excess-behind-near-duplicate1", [1, 1, F(23, 20) - F(1, 10**16), F(23, 20), F(23, 20), F(23, 20), F(10, 7), F(10, 7)], None),
         ("deg0", [0, F(1, 2), 1], None), ("deg0dup", [0, F(1, 2), F(1, 2), 1], None), ("head-tail", [-1, 0, 0, 1, 1], None),
     ]
     for label, v, d in ctor:
         run_case(ctx, ser(dict(kind="ctor", label=label, v=[F(x) if isinstance(x, (int, F)) else x for x in v], deg=d)))
     for i in range(budget(ctx, 40, 400)):
         v = rand_kv(rng)
-        mode = rng.choice(["drop", "dup", "swap", "tail", "head"])
+        mode = rng.choice(["drop", "dup", "swap", "tail", "head", "neardup"])
         w = list(v)
+        if mode == "neardup":
+            # an interior knot with one copy too many, preceded by a value closer to it than the merge tolerance (1e-6)
+            p_, n_, ks_ = kv_info(v)
+            if len(ks_) <= 2:
+                continue
+            k_ = rng.choice(ks_[1:-1])
+            j = w.index(k_)
+            w[j:j] = [k_ - F(1, 10 ** rng.choice([7, 10, 16]))] + [k_] * (p_ + 2 - w.count(k_))
         if mode == "drop":
             w.pop(rng.randrange(len(w)))
         elif mode == "dup":
